@@ -7,5 +7,6 @@ CONSTANTS
     Compat <- Compat_exact
     LatestEdition <- Code_LatestEdition
     Forms <- AllFormsD
-INVARIANTS TypeOK FlagSound FlagMonotone EditionRule LatestEditionRule DefaultRule ParseRule ConstructMonotone
+    NightlyZero = "reject"
+INVARIANTS TypeOK FlagSound FlagMonotone EditionRule LatestEditionRule DefaultRule ParseRule ParseTotal ConstructMonotone
 CHECK_DEADLOCK FALSE
